@@ -414,6 +414,15 @@ def sm_accum(ctx):
         mutated.add(norm_text(base).replace('self.', ''))
         ok = isinstance(w, ast.AugAssign) and isinstance(w.op, ast.Add) and \
             norm_text(w.value) == xi
+        if not ok and isinstance(w, ast.Assign) and isinstance(tgt, ast.Attribute):
+            # a derived cache: a pure function of the model's own attributes, independent of
+            # the update vector (it must then be covered by reset_estimates: SM-ATTRS)
+            names = {n.id for n in ast.walk(w.value) if isinstance(n, ast.Name)}
+            loopv = {n.id for n in ast.walk(lp.target) if isinstance(n, ast.Name)}
+            if not (names & (loopv | {up.params[1]})) and 'self.' in norm_text(w.value):
+                ctx.ob('SM-ACCUM', True, None, '`%s` is a cache derived from the accumulated '
+                       'attributes' % norm_text(w)[:70], f=up, node=w, key='cache-' + tgt.attr)
+                continue
         ctx.ob('SM-ACCUM', ok, None, '`%s` accumulates its own element' % norm_text(w), f=up,
                node=w, why='`%s` is not an additive accumulation of the state element: several '
                            'updates no longer equal one update with their sum' % norm_text(w))
@@ -462,34 +471,7 @@ def sm_sign(ctx):
     em = ctx.repo.klass('inertial_sensor.EstimationModel')
     pm = ctx.repo.klass('inertial_sensor.Parameters')
     ci = em.methods['correct_increments']
-    sol = [n for n in ast.walk(ci.node) if isinstance(n, ast.Call) and
-           ci.module.resolve(n.func, ci.local_names()) in ('numpy.linalg.solve',
-                                                           'scipy.linalg.solve')]
-    ok = False
-    why = 'correct_increments does not solve with the transform'
-    if len(sol) == 1 and len(sol[0].args) == 2:
-        a, b = sol[0].args
-        outerT = False
-        for n in ast.walk(ci.node):
-            if isinstance(n, ast.Attribute) and n.attr in ('T', 'transpose') and \
-                    n.value is sol[0]:
-                outerT = True
-        innerT = (isinstance(b, ast.Attribute) and b.attr == 'T') or (
-            isinstance(b, ast.Call) and isinstance(b.func, ast.Attribute) and
-            b.func.attr == 'transpose' and not b.args)
-        inner = (b.value if isinstance(b, ast.Attribute) else b.func.value) if innerT else b
-        sub_ok = isinstance(inner, ast.BinOp) and isinstance(inner.op, ast.Sub) and \
-            'self.bias' in norm_text(inner.right) and 'self.bias' not in norm_text(inner.left)
-        ok = norm_text(a) == 'self.transform' and outerT and innerT and sub_ok
-        why = ('correction is `%s`; expected solve(self.transform, (increments - self.bias * dt).T).T'
-               % norm_text(sol[0]))
-        if sub_ok:
-            e = _dt_exponent(inner.right, 'dt')
-            ctx.ob('SM-UNITS', e == 1, None, 'correction removes bias * dt^1', f=ci, node=inner,
-                   key='corr-dt', why='bias is removed from increments as `%s` (dt exponent %s)'
-                                      % (norm_text(inner.right), e))
-    ctx.ob('SM-SIGN', ok, None, 'corrected = T^-1 (increments - bias dt), row-wise', f=ci,
-           node=(sol[0] if sol else ci.node), key='correct', why=why)
+    _sm_correct(ctx, em, ci)
     # constructor: H[axis, n_states] = 1
     init = em.methods['__init__']
     Hl = _ctor_roles(init).get('H', 'H')
@@ -818,3 +800,156 @@ def sm_gate(ctx):
                    % (st.targets[0].attr, norm_text(st.value), bad[1] if bad else None,
                       bad[0] if bad else None))
     ctx.floor('SM-GATE', n_dec, 1, 'gating flags computed from index lists')
+
+
+def _sm_correct(ctx, em, ci):
+    """corrected rows == T^-1 (x - bias dt): as a matrix identity C == (X - B) T^-T, evaluated in
+    the non-commutative normal form; a cached inverse attribute is accepted when the class
+    keeps the invariant `cache == inv(transform)` in every method that writes either."""
+    from .kal import NCAlg, NC
+    A = NCAlg()
+    res = lambda n: ci.module.resolve(n, ci.local_names())
+    at = A.atom
+    A.inverse['T'] = 'inv(T)'
+    A.inverse['inv(T)'] = 'T'
+    # cached inverses: attribute -> (holds, reason)
+    caches = {}
+    writers = {}
+    for mname, m in em.methods.items():
+        for st in ast.walk(m.node):
+            if isinstance(st, ast.Assign) and isinstance(st.targets[0], ast.Attribute) and \
+                    norm_text(st.targets[0].value) == 'self':
+                writers.setdefault(st.targets[0].attr, []).append((mname, m, st))
+    def is_ident(v):
+        return isinstance(v, ast.Call) and (em.module.resolve(v.func) or '') in (
+            'numpy.identity', 'numpy.eye')
+    for attr, ws in writers.items():
+        if not any(isinstance(st.value, ast.Call) and (em.module.resolve(st.value.func) or '')
+                   in ('numpy.linalg.inv', 'scipy.linalg.inv') and st.value.args and
+                   norm_text(st.value.args[0]) == 'self.transform' for _, _, st in ws):
+            continue
+        bad = None
+        for mname, m, st in ws:
+            v = st.value
+            inv_ok = isinstance(v, ast.Call) and (em.module.resolve(v.func) or '') in (
+                'numpy.linalg.inv', 'scipy.linalg.inv') and \
+                norm_text(v.args[0]) == 'self.transform'
+            id_ok = is_ident(v) and any(
+                isinstance(s2, ast.Assign) and norm_text(s2.targets[0]) == 'self.transform' and
+                is_ident(s2.value) for s2 in ast.walk(m.node))
+            if not (inv_ok or id_ok):
+                bad = 'it is set to `%s` in %s' % (norm_text(v)[:40], mname)
+        # every method that writes self.transform (whole or element) also refreshes the cache
+        for mname, m in em.methods.items():
+            touches = any(isinstance(n, (ast.Assign, ast.AugAssign)) and 'self.transform' in
+                          norm_text(n.targets[0] if isinstance(n, ast.Assign) else n.target)
+                          for n in ast.walk(m.node))
+            refreshes = any(mn == mname for mn, _, _ in ws)
+            if touches and not refreshes and bad is None:
+                bad = '%s changes self.transform without refreshing it' % mname
+        caches[attr] = bad
+
+    def ev(e):
+        if isinstance(e, ast.Attribute) and e.attr in ('T',):
+            return A.T(ev(e.value))
+        if isinstance(e, ast.Attribute) and e.attr == 'values':
+            return ev(e.value)
+        if isinstance(e, ast.Attribute) and norm_text(e.value) == 'self':
+            if e.attr == 'transform':
+                return at('T')
+            if e.attr in caches:
+                if caches[e.attr] is not None:
+                    raise _CacheBroken(e.attr, caches[e.attr])
+                return at('inv(T)')
+            if e.attr == 'bias':
+                return at('b')
+            raise AnalysisError('correct_increments reads self.%s' % e.attr)
+        if isinstance(e, ast.Name):
+            if e.id == ci.params[2]:
+                return at('X')
+            if e.id == ci.params[1]:
+                return at('dt')
+            for st in ast.walk(ci.node):
+                if isinstance(st, ast.Assign) and len(st.targets) == 1 and \
+                        isinstance(st.targets[0], ast.Name) and st.targets[0].id == e.id and \
+                        st.lineno < e.lineno:
+                    last = st
+            try:
+                return ev(last.value)
+            except UnboundLocalError:
+                raise AnalysisError('correct_increments: `%s`' % e.id)
+        if isinstance(e, ast.BinOp):
+            if isinstance(e.op, ast.MatMult):
+                return A.mul(ev(e.left), ev(e.right))
+            if isinstance(e.op, ast.Sub):
+                return A.sub(ev(e.left), ev(e.right))
+            if isinstance(e.op, ast.Add):
+                return A.add(ev(e.left), ev(e.right))
+            if isinstance(e.op, ast.Mult):
+                # bias * dt (row broadcast): one atom B = bias dt
+                t = {norm_text(e.left), norm_text(e.right)}
+                l, r = ev(e.left), ev(e.right)
+                keys = {l.key(), r.key()}
+                if keys == {at('b').key(), at('dt').key()}:
+                    return at('B')
+            raise AnalysisError('correct_increments: operator in `%s`' % norm_text(e)[:50])
+        if isinstance(e, ast.Call):
+            q = res(e.func) or ''
+            if q in ('numpy.linalg.solve', 'scipy.linalg.solve') and len(e.args) == 2:
+                a_ = ev(e.args[0])
+                if a_.key() == at('T').key():
+                    return A.mul(at('inv(T)'), ev(e.args[1]))
+                if a_.key() == A.T(at('T')).key():
+                    return A.mul(A.T(at('inv(T)')), ev(e.args[1]))
+                raise AnalysisError('correct_increments: solve with `%s`' % norm_text(e.args[0]))
+            if q in ('numpy.linalg.inv', 'scipy.linalg.inv') and e.args:
+                a_ = ev(e.args[0])
+                if a_.key() == at('T').key():
+                    return at('inv(T)')
+                if a_.key() == A.T(at('T')).key():
+                    return A.T(at('inv(T)'))
+            if q in ('numpy.asarray', 'numpy.array') and e.args:
+                return ev(e.args[0])
+            if q == 'numpy.transpose' and len(e.args) == 1:
+                return A.T(ev(e.args[0]))
+            if isinstance(e.func, ast.Attribute) and e.func.attr in ('reshape', 'copy', 'to_numpy'):
+                return ev(e.func.value)
+            if isinstance(e.func, ast.Attribute) and e.func.attr == 'transpose' and not e.args:
+                return A.T(ev(e.func.value))
+            if isinstance(e.func, ast.Attribute) and e.func.attr == 'dot' and len(e.args) == 1:
+                return A.mul(ev(e.func.value), ev(e.args[0]))
+        raise AnalysisError('correct_increments: expression `%s`' % norm_text(e)[:50])
+    # the corrected array: first positional / data argument of the returned tables
+    target = None
+    for n in ast.walk(ci.node):
+        if isinstance(n, ast.Return) and isinstance(n.value, ast.Call) and n.value.args:
+            target = n.value.args[0]
+    ctx.need(target is not None, 'correct_increments: returned data not found')
+    want = A.mul(A.sub(at('X'), at('B')), A.T(at('inv(T)')))
+    node = target
+    try:
+        got = ev(target)
+        ok = A.eq(got, want)
+        why = ('corrected increments are `%s`, not T^-1 (increments - bias dt) row by row'
+               % got.key()[:120])
+    except _CacheBroken as e:
+        ok = False
+        why = ('correct_increments uses the cached inverse self.%s, but %s: the cache is not '
+               'inv(self.transform) at every call' % (e.args[0], e.args[1]))
+    ctx.ob('SM-SIGN', ok, None, 'corrected = T^-1 (increments - bias dt), row-wise', f=ci,
+           node=node, key='correct', why=why)
+    # SM-UNITS: the bias is removed as bias * dt^1
+    subs = [n for n in ast.walk(ci.node) if isinstance(n, ast.BinOp) and isinstance(n.op, ast.Sub)
+            and 'self.bias' in norm_text(n.right) and 'self.bias' not in norm_text(n.left)]
+    if subs:
+        e_ = _dt_exponent(subs[0].right, 'dt')
+        ctx.ob('SM-UNITS', e_ == 1, None, 'correction removes bias * dt^1', f=ci, node=subs[0],
+               key='corr-dt', why='bias is removed from increments as `%s` (dt exponent %s)'
+                                  % (norm_text(subs[0].right), e_))
+    else:
+        ctx.ob('SM-UNITS', False, None, 'correction removes bias * dt^1', f=ci, key='corr-dt',
+               why='the bias is not subtracted from the increments')
+
+
+class _CacheBroken(Exception):
+    pass
